@@ -167,7 +167,14 @@ def move_staticmethod_static_scope(source: str, preserve: Collection[str]) -> st
                 continue
             name_replacements[(classdef.name, funcdef.name)] = new_name
 
-        moved_function_names = {fname: name for ((_, fname), name) in name_replacements.items()}
+        # Those of this class: self.helper() of another class is another function
+        moved_function_names = {
+            fname: name
+            for ((class_name, fname), name) in name_replacements.items()
+            if class_name == classdef.name
+        }
+        if not moved_function_names:
+            continue
 
         for node in class_attribute_accesses:
             classdef_aliases = [classdef.name]
